@@ -77,6 +77,15 @@ def lookupTail (cfg : Cfg) (inFlight : Bool) (s : Script) : Nat × Script :=
     if ok then (t, r) else (t + cfg.nodes * sendMax cfg + cfg.backoff, r)
   else (0, s)
 
+/-- `_push_error_to_user`: the coordination routine hands a non-retriable error (authorization
+    failure, unexpected error of the heartbeat / commit-refresh task, …) to the application and
+    waits until the application has looked at it with its next API call **or** the coordinator is
+    closing.  `none` = still parked.  This is the wait point `Pos.errorWait` below: an application
+    that calls `stop()` without polling again (`try: start() … finally: stop()`) never consumes
+    the error, only the closing flag ends the wait. -/
+def errorWait (closing consumed : Bool) : Option Nat :=
+  if closing || consumed then some 0 else none
+
 /-! ## consumer -/
 
 /-- where the coordination routine is when `close()` sets the closing flag -/
